@@ -31,6 +31,7 @@ var c09Returns = []string{
 	`return {"?xs":[1,2]};`,
 	`return {"?o":{"k":1,"l":[1]}};`,
 	`return {"?z":null,"?s":"str"};`,
+	`return {"votes":{"alice":2,"bob":1},"n":3,"xs":[2,5]};`,
 	`throw "boom";`,
 }
 
@@ -44,9 +45,34 @@ var c09Patterns = []interface{}{
 	map[string]interface{}{"v": "?z", "w": "?s"},
 }
 
+// what a later bindings-branching node asks of the bindings the action produced (numeric literals of the
+// spec are float64; the values in memory may be int64)
+var c09BindingPatterns = []interface{}{
+	nil,
+	map[string]interface{}{"n": 3.0},
+	map[string]interface{}{"votes": map[string]interface{}{"?winner": 2.0}},
+	map[string]interface{}{"votes": map[string]interface{}{"bob": 1.0, "alice": "?a"}},
+	map[string]interface{}{"xs": []interface{}{2.0, "?rest"}},
+}
+
 func c09Spec() *core.Spec {
 	ret := c09Returns[verif.Choose("return", len(c09Returns))]
 	pat := c09Patterns[verif.Choose("pattern", len(c09Patterns))]
+	bpat := c09BindingPatterns[verif.Choose("bindingsPattern", len(c09BindingPatterns))]
+	if bpat != nil {
+		// a message moves the machine to a node that branches on the bindings alone
+		return &core.Spec{
+			Name: "c09b",
+			Nodes: map[string]*core.Node{
+				"start": {ActionSource: &core.ActionSource{Interpreter: "ecmascript", Source: ret},
+					Branches: &core.Branches{Branches: []*core.Branch{{Target: "wait"}}}},
+				"wait":   {Branches: &core.Branches{Type: "message", Branches: []*core.Branch{{Target: "decide"}}}},
+				"decide": {Branches: &core.Branches{Type: "bindings", Branches: []*core.Branch{{Pattern: bpat, Target: "yes"}, {Target: "no"}}}},
+				"yes":    {},
+				"no":     {},
+			},
+		}
+	}
 	return &core.Spec{
 		Name: "c09",
 		Nodes: map[string]*core.Node{
